@@ -519,6 +519,7 @@ class DataFormat(object):
         if self.format == FORMAT_DELIMITED:
             if self.line_delimiter is not None:
                 check_distinct(KEY_ESCAPE_CHARACTER, KEY_LINE_DELIMITER)
+            check_distinct(KEY_ESCAPE_CHARACTER, KEY_ITEM_DELIMITER)
             check_distinct(KEY_ITEM_DELIMITER, KEY_LINE_DELIMITER)
             check_distinct(KEY_ITEM_DELIMITER, KEY_QUOTE_CHARACTER)
             check_distinct(KEY_LINE_DELIMITER, KEY_QUOTE_CHARACTER)
